@@ -13,6 +13,8 @@ import (
 	"path/filepath"
 	"sort"
 	"strings"
+
+	"dsverif/internal/an"
 )
 
 func main() {
@@ -51,7 +53,7 @@ func main() {
 						name = id.Name + "." + name
 					}
 				}
-				out = append(out, rel+":"+name)
+				out = append(out, rel+":"+name+"\t"+an.SigText(fd.Type))
 			}
 		}
 		return nil
